@@ -449,6 +449,20 @@ theorem missing_method_rejected {defs pool pk : KV} {ls : JL}
     installProgram defs pool (.obj pk) = .error .missing_method := by
   simp [installProgram, hl, iterLabels, installLabels_missing pool ls.toList .nil hmiss]
 
+/-- labels are resolved by EQUALITY of names: a label that differs from the only supplied method by
+case, a blank or unicode form is a missing method; with two methods `OGI` and `ogi` each label gets
+exactly its own file, whatever the order in which the pool was filled -/
+theorem near_name_labels_exact :
+    (["ogi", "Ogi", "OGI ", " OGI", "ＯGI"].all fun l =>
+      (match installLabels (.cons "OGI" (.obj (.cons "method_name" (.str "OGI") .nil)) .nil) [.str l] .nil with
+        | .error .missing_method => true
+        | _ => false)) = true ∧
+    (match installLabels (.cons "OGI" (.int 1) (.cons "ogi" (.int 2) .nil)) [.str "OGI"] .nil,
+           installLabels (.cons "ogi" (.int 2) (.cons "OGI" (.int 1) .nil)) [.str "OGI"] .nil with
+      | .ok a, .ok b => J.beq (.obj a) (.obj (.cons "OGI" (.int 1) .nil)) && J.beq (.obj b) (.obj (.cons "OGI" (.int 1) .nil))
+      | _, _ => false) = true := by
+  decide +kernel
+
 /-- `no_placeholder_left`: whatever the intake returns holds no type placeholder, at any depth -/
 theorem no_placeholder_left {defs : KV} {files : List KV} {r : J}
     (h : intake defs files = .ok r) : noPh r = true := by
